@@ -660,3 +660,97 @@ def large_pg(rng, cls, kind=None):
     if kind == "ring":
         return _chain_or_ring_pg(rng, cls, ring=True)
     return _molecule_pg(rng, cls)
+
+
+SCALE_SIZES = {"quick": (300, 1300), "thorough": (200, 300, 700, 1300, 2600)}
+
+
+def scale_pg(rng, cls, n):
+    """a very long chain (n backbone atoms; depth-first traversals get n deep, index arithmetic sees n*n) with a few
+    substituents, stereo centres and bond roles, plus a separate three-atom component"""
+    pg = sem.pg_empty(cls)
+    ids = make_ids(rng, n + 40, rng.choice(["range", "shuffled", "large"]))
+    for i in range(n):
+        pg["atoms"][ids[i]] = {"atom_type": 8 if i % 11 == 5 else 6}
+    for i in range(n - 1):
+        pg["bonds"][frozenset((ids[i], ids[i + 1]))] = {}
+    k = n
+    centres = []
+    for _ in range(8):  # CHXY centres along the chain
+        pos = rng.randrange(1, n - 1)
+        if any(abs(pos - c) < 3 for c in centres):
+            continue
+        centres.append(pos)
+        for z in (1, 9):
+            pg["atoms"][ids[k]] = {"atom_type": z}
+            pg["bonds"][frozenset((ids[pos], ids[k]))] = {}
+            k += 1
+        if cls in STEREO:
+            pg["astereo"][ids[pos]] = ("Tetrahedral", (ids[pos], ids[pos - 1], ids[pos + 1], ids[k - 2], ids[k - 1]), rng.choice((1, -1)))
+    # separate small component
+    o, h1, h2 = ids[k], ids[k + 1], ids[k + 2]
+    pg["atoms"][o] = {"atom_type": 8}
+    pg["atoms"][h1] = {"atom_type": 1}
+    pg["atoms"][h2] = {"atom_type": 1}
+    pg["bonds"][frozenset((o, h1))] = {}
+    pg["bonds"][frozenset((o, h2))] = {}
+    if cls in REACTION:
+        free = [b for b in sorted(pg["bonds"], key=sorted) if not any(ids[c] in b for c in centres)]
+        for b in rng.sample(free, 4):
+            pg["bonds"][b]["reaction"] = rng.choice(ROLES)
+    return pg
+
+
+def random_regular_pg(rng, cls, n=None, d=None, z=6):
+    """random d-regular simple graph on n atoms of one element (pairing model with restarts): colour refinement
+    cannot split anything, every decision is left to the search itself"""
+    d = d or rng.choice([3, 3, 4])
+    n = n or rng.choice([8, 10, 12, 12, 14, 16])
+    if (n * d) % 2:
+        n += 1
+    for _ in range(200):
+        stubs = [v for v in range(n) for _ in range(d)]
+        rng.shuffle(stubs)
+        edges = set()
+        ok = True
+        for i in range(0, len(stubs), 2):
+            u, v = stubs[i], stubs[i + 1]
+            e = frozenset((u, v))
+            if u == v or e in edges:
+                ok = False
+                break
+            edges.add(e)
+        if ok:
+            break
+    else:
+        return None
+    ids = make_ids(rng, n)
+    pg = sem.pg_empty(cls)
+    for i in range(n):
+        pg["atoms"][ids[i]] = {"atom_type": z}
+    for e in edges:
+        u, v = tuple(e)
+        pg["bonds"][frozenset((ids[u], ids[v]))] = {}
+    return pg
+
+
+def two_switch(rng, pg):
+    """exchange the partners of two bonds a-b, c-d -> a-d, c-b (degrees and labels unchanged); None if impossible"""
+    bonds = sorted(pg["bonds"], key=sorted)
+    for _ in range(50):
+        b1, b2 = rng.sample(bonds, 2)
+        if b1 & b2:
+            continue
+        a, b = sorted(b1)
+        c, d = sorted(b2)
+        if rng.random() < 0.5:
+            c, d = d, c
+        n1, n2 = frozenset((a, d)), frozenset((c, b))
+        if n1 in pg["bonds"] or n2 in pg["bonds"]:
+            continue
+        g = sem.pg_copy(pg)
+        del g["bonds"][b1], g["bonds"][b2]
+        g["bonds"][n1] = {}
+        g["bonds"][n2] = {}
+        return g
+    return None
